@@ -6,6 +6,7 @@ from collections.abc import Iterator
 
 from .vector import Vector
 from .vector import _at_midnight
+from .vector import _extreme
 
 from .naming import _sanitize_user_name
 
@@ -1936,7 +1937,7 @@ class Table(Vector):
 				d = col._underlying
 				def min_func(vals, d=d):
 					clean = [v for v in vals if v is not None]
-					return min(clean) if clean else None
+					return _extreme(clean, min) if clean else None
 				
 				aggregate_col(col, min_func, "min")
 		
@@ -1948,7 +1949,7 @@ class Table(Vector):
 				d = col._underlying
 				def max_func(vals, d=d):
 					clean = [v for v in vals if v is not None]
-					return max(clean) if clean else None
+					return _extreme(clean, max) if clean else None
 				
 				aggregate_col(col, max_func, "max")
 		
@@ -2191,7 +2192,7 @@ class Table(Vector):
 					raise ValueError(f"Aggregation column has wrong length")
 				def fn(vals):
 					clean = [v for v in vals if v is not None]
-					return min(clean) if clean else None
+					return _extreme(clean, min) if clean else None
 				gm = compute_group_values(col, fn)
 				result_cols.append(
 					Vector(expand_to_rows(gm), name=uniquify(sanitize(col, "min")))
@@ -2204,7 +2205,7 @@ class Table(Vector):
 					raise ValueError(f"Aggregation column has wrong length")
 				def fn(vals):
 					clean = [v for v in vals if v is not None]
-					return max(clean) if clean else None
+					return _extreme(clean, max) if clean else None
 				gm = compute_group_values(col, fn)
 				result_cols.append(
 					Vector(expand_to_rows(gm), name=uniquify(sanitize(col, "max")))
